@@ -169,8 +169,29 @@ let () =
             let swapped = List.concat_map (fun (s, qs) -> List.map (fun q -> (q, [s])) qs) !vhint in
             let r = mk_pairing swapped in
             let b x = if x then "1" else "0" in
-            Buffer.add_string buf (Printf.sprintf "GB %s %s %s\n" tag
-              (String.concat " " (List.map b side)) (b (gsim_ok built g r)))
+            (* the de-duplication loop of the model, then a product walk of the two graphs from their roots as relation hint *)
+            let dd = dedup built in
+            let seen = Hashtbl.create 64 in
+            let todo = Queue.create () in
+            let push a c = if not (Hashtbl.mem seen (a, c)) then (Hashtbl.add seen (a, c) (); Queue.add (a, c) todo) in
+            push dd.g_root g.g_root;
+            while not (Queue.is_empty todo) do
+              let (a, c) = Queue.pop todo in
+              (match gfind dd a, gfind g c with
+               | Some sa, Some sc ->
+                   List.iter (fun x -> match edge_first sa.g_edges x, edge_first sc.g_edges x with
+                                       | Some t1, Some t2 -> push t1 t2 | _ -> ()) all_bytes;
+                   (match sa.g_eoi, sc.g_eoi with Some t1, Some t2 -> push t1 t2 | _ -> ())
+               | _ -> ())
+            done;
+            let tbl = Hashtbl.create 64 in
+            Hashtbl.iter (fun (a, c) () -> Hashtbl.replace tbl a (c :: (try Hashtbl.find tbl a with Not_found -> []))) seen;
+            let r2 = Hashtbl.fold (fun a cs m -> PositiveMap.add a cs m) tbl PositiveMap.empty in
+            let injective = Hashtbl.fold (fun _ cs ok -> ok && List.length cs = 1) tbl true in
+            let same_size = (List.length (PositiveMap.elements dd.g_states) = List.length (PositiveMap.elements g.g_states)) in
+            Buffer.add_string buf (Printf.sprintf "GB %s %s %s %s %s %s\n" tag
+              (String.concat " " (List.map b side)) (b (gsim_ok built g r))
+              (b (wf_graph built && closed_graph built)) (b (gsim_ok dd g r2)) (b (same_size && injective)))
         | "PGM" ->
             (* start of an emitted program: root restart *)
             let r = next () in let rs = next () in
